@@ -395,6 +395,7 @@ var c11LinePool = []string{
 	"\u00a0||nbsp.example^\u00a0", "\f||formfeed.example^", "\u2003a.com\u2003", "0.0.0.0 example.org\u0085", "\v##.vt", // Unicode blanks at the edges
 	"\xa0||latin1.example^", "\x85||nel.example^", "\xbf0.0.0.0 example.org", // first byte is a UTF-8 continuation byte
 	"||example.org^$dnsrewrite=1.2.3.4", "||example.org^$client='Frank\\'s laptop'", "/regex[0-9]+/", "  ||trimmed.example^  ",
+	"[Adblock Plus 2.0]", "[Adblock]", // list headers are lines like any other
 	"cn", "io", "a", "ab", "a.b", // the shortest lines there are
 	"@@||example.org^$elemhide", "@@||example.org^$document", "@@||a.com^$generichide,important", "@@||google.com^$jsinject,elemhide", // exceptions that switch cosmetic options off are network rules
 	"  ##.banner", "\t example.org##.ad", " #@#.x", "   example.org#$#body{}", " ! indented comment", "  # indented hosts comment", // indented cosmetic rules and comments
@@ -437,6 +438,13 @@ func genC11(t *rapid.T) c11Case {
 		}
 		k := rapid.IntRange(0, 25).Draw(t, "nlines")
 		eol := pick(t, "eol", []string{"\n", "\r\n", "mixed"})
+		if chance(t, "header-first-line", 8) {
+			buf.WriteString(pick(t, "header", []string{"[Adblock Plus 2.0]", "[Adblock Plus 3.1]", "[AdBlock]"}))
+			if eol == "\r\n" {
+				buf.WriteString("\r")
+			}
+			buf.WriteString("\n")
+		}
 		for j := 0; j < k; j++ {
 			var ln string
 			if chance(t, "long-line", 12) {
